@@ -71,7 +71,9 @@ fn sections() -> Vec<Section> {
     out.push(s);
     // ---- time / integer conversions and mixed operators
     let mut s = Section::new("time-conversions");
-    for &t in &[0i64, 1, -1, 999, 1_000_000_000, -2_500_000_000, 16_777_217, 30_000_001_024, (1 << 53) + 1, -(1 << 62), i64::MAX, i64::MIN] {
+    // (the tail repeats values that agree in their low 32 / 16 bits back to back: a conversion is a
+    // pure function of its argument in every configuration)
+    for &t in &[0i64, 1, -1, 999, 1_000_000_000, -2_500_000_000, 16_777_217, 30_000_001_024, (1 << 53) + 1, -(1 << 62), i64::MAX, i64::MIN, 1_500_000_000, 1_500_000_000 + (1 << 32), 1_500_000_000, 1_500_000_000 - (1 << 32), 7_000_000, 7_000_000 + (1 << 16), 7_000_000, 7_000_000 + (3 << 32)] {
         s.case(format!("t={}", t), || {
             let q = Quantity::from(Time(t));
             let back = Time::try_from(q).map(|x| x.0);
